@@ -162,13 +162,18 @@ _SETPRIV = None
 
 
 def impl_argv():
+    """the implementation runs as uid 65534 when that works here (so that mode-000 directories are real faults): setpriv must
+    exist, and the unprivileged user must be able to execute the probe and to reach the sandbox directory"""
     global _SETPRIV
     if _SETPRIV is None:
+        _SETPRIV = False
         try:
-            r = subprocess.run(['setpriv', '--reuid=65534', '--regid=65534', '--clear-groups', 'true'], stdout=subprocess.DEVNULL,
-                               stderr=subprocess.DEVNULL)
-            _SETPRIV = r.returncode == 0
-        except OSError:
+            os.makedirs(FS, exist_ok=True)
+            probe = subprocess.run(['setpriv', '--reuid=65534', '--regid=65534', '--clear-groups', W.IMPL_BIN],
+                                   input=('walk %s P F - - F\n' % hx(FS)).encode(), stdout=subprocess.PIPE, stderr=subprocess.DEVNULL, timeout=60)
+            out = probe.stdout.decode('utf-8', 'replace')
+            _SETPRIV = probe.returncode == 0 and out.startswith('ok\tyield=e|')
+        except (OSError, subprocess.SubprocessError):
             _SETPRIV = False
     if _SETPRIV:
         return ['setpriv', '--reuid=65534', '--regid=65534', '--clear-groups', W.IMPL_BIN]
